@@ -18,7 +18,12 @@ def gen_spec(r: apigen.Rng):
     all_msgs = []
     for fi in range(nfiles):
         in_sub = bool(spec["sub"]) and fi == 0 and nfiles > 1
-        f = {"name": ["common", "types", "library"][fi + (3 - nfiles)], "pkg": pkg + ("." + spec["sub"] if in_sub else ""), "messages": [], "enums": [], "services": []}
+        fname = ["common", "types", "library"][fi + (3 - nfiles)]
+        if fi < nfiles - 1 and r.maybe(0.3):
+            # a target file named like a module the service code imports from elsewhere (google.api_core.operation, the service's
+            # own pagers module, ...): the two modules must be told apart by an alias wherever they meet
+            fname = r.pick(["operation", "pagers", "operation_async", "extended_operation", "retries", "client_options"])
+        f = {"name": fname, "pkg": pkg + ("." + spec["sub"] if in_sub else ""), "messages": [], "enums": [], "services": []}
         if r.maybe(0.6):
             f["enums"].append({"name": f"Color{fi}", "values": [f"COLOR{fi}_UNSPECIFIED", f"RED{fi}", f"BLUE{fi}"]})
         if r.maybe(0.04):        # legal but unusual: an enum value named by a Python keyword (findings/C01.json)
@@ -94,6 +99,8 @@ def stress_specs():
         files[1]["messages"][0]["collide"] = "nested"; files[1]["messages"][1]["collide"] = "top"; files[2]["messages"][0]["collide"] = "nested"
         files[2]["messages"].append(dict(msg("Zeta"), collide="proto"))
         files[2]["services"] = [{"name": "Library", "methods": methods}, {"name": "Catalog", "methods": second}]
+        if tr == "grpc+rest":
+            files[0]["name"], files[1]["name"] = "operation", "pagers"      # their messages are LRO / paged / unary payloads of the services
         if tr == "rest" or tr == "grpc":
             files.append({"name": "api_service", "pkg": pkg, "messages": [], "enums": [], "services": files[2]["services"], "svc_only": True})
             files[2]["services"] = []
